@@ -1,0 +1,20 @@
+//go:build verif
+
+package analysisutil
+
+// Machine-checked contracts (comment-only; build tag `verif`); read by /verif/govc.
+
+// C04: the code identifier handed to the specification oracle f describes the call
+// as the documentation of `context` says: Context is the FULL name of the enclosing
+// function (ssa.Function.String(), e.g. "(*pkg.T).Method" or "pkg.Func$1"), Method
+// the name of the called value. cid is an arbitrary identifier: whenever f was
+// called with it, it has that shape; and a positive answer always comes from f.
+
+//@ func isFuncEntrypoint
+//@   property C04
+//@   ghost cid config.CodeIdentifier
+//@   requires node != nil && parent != nil && node.Call.Value != nil
+//@   ensures context_is_full_name: called(f, cid) ==> cid.Context == parent.String()
+//@   ensures method_is_callee_name: called(f, cid) ==> cid.Method == node.Call.Value.Name()
+//@   ensures no_extra_constraints: called(f, cid) ==> cid.Receiver == "" && cid.Field == "" && cid.Type == "" && cid.Kind == "" && cid.Label == "" && cid.Interface == ""
+//@   ensures decided_by_oracle: result ==> called(f, _)
